@@ -10,7 +10,7 @@ from libertem_blobfinder.common import gridmatching as grm
 PROP = "C06"
 LEAN_MODULE = "BlobfinderModel.Properties.C06"
 GEN_FILES = ["Lattice"]
-FRAGMENTS = ["optimize", "calc_coords"]
+FRAGMENTS = ["optimize", "calc_coords", "containers_text"]
 DRIVER = "drvlattice"
 RULE = ("correspondence: affinematch / weighted_optimize / optimize of the real code vs the exact rational Cramer "
         "solution of the normal equations computed by the model on the same float inputs (tolerance scaled with the "
